@@ -85,6 +85,9 @@ def run_path(spec, fnode, script):
     ys = SeqOf(spec.yields)
     ex.store['$out'] = SV(ys, ys.z3().mk(0, z3.K(z3.IntSort(), spec.yields.const('dy'))))
     env.set('_out', Box('$out'))
+  for gname, (gsort, ginit) in (getattr(spec, 'ghost_state', None) or {}).items():
+    ex.store['$' + gname] = ginit(ex) if callable(ginit) else SV(gsort, gsort.empty())
+    env.set(gname, Box('$' + gname))
   ex.init_heap(env, old_env) if hasattr(ex, 'init_heap') else None
   for p_, s_ in list(spec.params) + list(spec.free):
     v_ = old_env.lookup(p_)
@@ -119,6 +122,8 @@ def run_path(spec, fnode, script):
       # no declared exception was due
       for exn, c in raise_conds_now().items():
         ex.oblige(z3.Not(c), f'raises-if[{exn}]')
+      for exn, ctext in spec.raises_when.items():
+        ex.oblige(z3.Not(ex.eval_spec(ctext, Env(old_env))), f'raises-when[{exn}]')
       res = outcome[1]
       penv = Env(env)
       # in a postcondition a parameter name denotes its ENTRY value (the body may rebind it);
@@ -149,7 +154,7 @@ def run_path(spec, fnode, script):
       if name in raise_conds:
         ex.oblige(raise_conds[name], f'raises-only-if[{name}]')
         ex.post_raise_frame(env) if hasattr(ex, 'post_raise_frame') else None
-      elif name in spec.raises_any:
+      elif name in spec.raises_any or name in spec.raises_when:
         pass
       else:
         ex.oblige(False, f'safety:unexpected-raise[{name}]')
